@@ -358,3 +358,36 @@ def fam_fiats(maxlen=3):
                 yield ("fiats/g%d/%s" % (guard, "-".join(seq)),
                        dict(tick=0.125, inits=[("env.e0", guard), ("env.e1", 0)],
                             framers=[dict(name="x", schedule="active", frames=frames), s]), dict())
+
+
+# ------------------------------------------------------------------------------- C20 markers
+
+X_ALPHABET = [None, {"x": 1}, {"x": 2}]
+
+
+def fam_markers():
+    """frames A <-> B (and C) whose transitions are guarded by `x is updated|changed [in frame [F]] [by mk]`."""
+    ctxs = ("enter", "exit")
+    for kind in ("updated", "changed"):
+        clauses = [(None, None), ("me", None), ("A", None), (None, "mk"), ("me", "mk"), ("B", "mk")]
+        for (inA, byA) in clauses:
+            for (inB, byB) in clauses:
+                nA = (kind, "x", inA, byA, False)
+                nB = (kind, "x", inB, byB, False)
+                frames = [dict(name="A", items=recs("A", ctxs) + [("go", "B", [nA])]),
+                          dict(name="B", items=recs("B", ctxs) + [("go", "A", [nB])])]
+                yield ("markers/%s/A%s-%s/B%s-%s" % (kind, inA, byA, inB, byB),
+                       dict(tick=0.125, inits=[("x", 0)], framers=[dict(name="m", schedule="active", frames=frames)]), dict())
+        # two transitions in one frame sharing a mark, plus a framer write to x on entry (same tick as the entry reset)
+        for (inA, byA) in clauses:
+            nA = (kind, "x", inA, byA, False)
+            frames = [dict(name="A", items=recs("A", ctxs) + [("go", "B", [nA, ("cmp", "x", "==", 1, None, False)]), ("go", "C", [nA])]),
+                      dict(name="B", items=recs("B", ctxs) + [("put", "enter", 2, "x"), ("go", "A", [(kind, "x", "me", None, False)])]),
+                      dict(name="C", items=recs("C", ctxs) + [("go", "A", [(kind, "x", None, byA, False)])])]
+            yield ("markers/%s/two/A%s-%s" % (kind, inA, byA),
+                   dict(tick=0.125, inits=[("x", 0)], framers=[dict(name="m", schedule="active", frames=frames)]), dict())
+        # negated
+        frames = [dict(name="A", items=recs("A", ctxs) + [("go", "B", [(kind, "x", "me", None, True)])]),
+                  dict(name="B", items=recs("B", ctxs) + [("go", "A", [(kind, "x", None, None, False)])])]
+        yield ("markers/%s/negated" % kind,
+               dict(tick=0.125, inits=[("x", 0)], framers=[dict(name="m", schedule="active", frames=frames)]), dict())
